@@ -10,5 +10,9 @@ open Verif.Props.C01D
 #print axioms hoist_sound
 #print axioms hoist_sound_counterexample
 #print axioms hoist_sound_partial
+#print axioms hoist_early
+#print axioms hoist_sound_prog_partial
+#print axioms hoist_sound_prog_repaired
+#print axioms sort_decl_sound
 #print axioms for_init_merge_sound
 #print axioms for_init_merge_sound_names
